@@ -46,6 +46,12 @@ func mix(x *uint64) uint64 {
 
 func fill(seed uint64, n int) []byte {
 	b := make([]byte, n)
+	fillInto(b, seed)
+	return b
+}
+
+func fillInto(b []byte, seed uint64) {
+	n := len(b)
 	s := seed
 	i := 0
 	for ; i+8 <= n; i += 8 {
@@ -60,7 +66,6 @@ func fill(seed uint64, n int) []byte {
 			v >>= 8
 		}
 	}
-	return b
 }
 
 func id16(h string) (out [16]byte) {
